@@ -18,7 +18,7 @@ import (
 	"verifh/lib"
 )
 
-const header = "From GL Require Import VM.Opcode VM.Proto VM.WfProto VM.Skeleton VM.WfCases."
+const header = "From Coq Require Import Uint63.\nFrom GL Require Import VM.Opcode VM.Proto VM.WfProto VM.Skeleton VM.WfCases."
 
 var extraCmds = map[string]func([]string){}
 
